@@ -11,6 +11,9 @@
     fload k v      the flight: input validation (v = inputs valid) and `a.rc.Load(key)`
     fnet k ok      the flight: openTemp, HTTP exchange, copy, checksum (ok = the server
                    delivered the right bytes); the request carries the leader's context
+    freq k         the same exchange in two parts, for a server that stalls: the request
+    fbody k ok     reaches the server (freq), later the body arrives or the transfer fails
+                   (fbody); a leader cancelled in between makes the transfer fail
     fstore k       the flight: newRc + `a.rc.Swap(key, rc)` (with the double-store branch)
     fend k         singleflight deletes the call and hands the result to every waiter
     cancel t       the context of a task blocked in the select is cancelled
@@ -52,6 +55,7 @@ inductive Phase where
   | begun
   | hit (r : Nat)
   | missed
+  | requesting
   | fetched
   | stored (r : Nat)
   | failed
@@ -82,6 +86,8 @@ inductive Op where
   | enter (t : Nat)
   | fload (k : Nat) (valid : Bool)
   | fnet (k : Nat) (srvOk : Bool)
+  | freq (k : Nat)
+  | fbody (k : Nat) (srvOk : Bool)
   | fstore (k : Nat)
   | fend (k : Nat)
   | cancel (t : Nat)
@@ -98,7 +104,7 @@ inductive Out where
   | spawned (t : Nat)
   | lead | join
   | hit | miss | invalid
-  | fetched | neterr
+  | fetched | neterr | requested
   | stored | double
   | ended (n : Nat) (ok : Bool)
   | cancelled | leaderCancelled | noeffect
@@ -168,6 +174,23 @@ def stepG (fixed : Bool) (s : State) : Op → State × Out
         if f.ctxDead then (setPhase s k f .failed, .neterr)
         else if srvOk then ({ setPhase s k f .fetched with hits := upd s.hits k (s.hits k + 1) }, .fetched)
         else ({ setPhase s k f .failed with hits := upd s.hits k (s.hits k + 1) }, .neterr)
+      else (s, .bad)
+    | none => (s, .bad)
+  | .freq k =>
+    match s.flight k with
+    | some f =>
+      if f.phase = .missed then
+        if f.ctxDead then (setPhase s k f .failed, .neterr)
+        else ({ setPhase s k f .requesting with hits := upd s.hits k (s.hits k + 1) }, .requested)
+      else (s, .bad)
+    | none => (s, .bad)
+  | .fbody k srvOk =>
+    match s.flight k with
+    | some f =>
+      if f.phase = .requesting then
+        if f.ctxDead then (setPhase s k f .failed, .neterr)
+        else if srvOk then (setPhase s k f .fetched, .fetched)
+        else (setPhase s k f .failed, .neterr)
       else (s, .bad)
     | none => (s, .bad)
   | .fstore k =>
